@@ -503,6 +503,8 @@ class _Inliner:
             if not lambdas:
                 break
             before = self.count
+            body = self._hoist_whole_conditions(body, lambdas)
+            self.fn["body"] = body
 
             def rewrite(n, stmt_pos):
                 # children first (but never inside the lambda definitions themselves: they are copied when inlined)
@@ -588,6 +590,40 @@ class _Inliner:
             if self.count == before:
                 break
         return self.count
+
+    def _hoist_whole_conditions(self, body, lambdas):
+        """`if(lam(args)) ...` / `switch(lam(args)) ...` directly inside a block, lam a local lambda whose returns sit in tail
+        positions: `const T __c = lam(args); if(__c) ... / switch(__c) ...` (same evaluation order)."""
+        def rec(n):
+            if n.get("k") == "Var" and n.get("did") in lambdas:
+                return n
+            for key in _SUBKEYS + ("var",):
+                if isinstance(n.get(key), dict):
+                    n[key] = rec(n[key])
+            for key in ("decls", "handlers"):
+                if isinstance(n.get(key), list):
+                    n[key] = [rec(x) if isinstance(x, dict) else x for x in n[key]]
+            if isinstance(n.get("c"), list):
+                out = []
+                for x in n["c"]:
+                    x = rec(x) if isinstance(x, dict) else x
+                    if n.get("k") == "CompoundStmt" and isinstance(x, dict) and x.get("k") in ("IfStmt", "SwitchStmt") and isinstance(x.get("cond"), dict) and "condvar" not in x and not isinstance(x.get("init"), dict):
+                        c0 = strip(x["cond"])
+                        while c0.get("k") in ("ExprWithCleanups", "ParenExpr", "ImplicitCastExpr") and len([c_ for c_ in c0.get("c", []) if isinstance(c_, dict)]) == 1:
+                            c0 = strip([c_ for c_ in c0["c"] if isinstance(c_, dict)][0])
+                        d2 = _is_lambda_call(c0, lambdas)
+                        if d2 is not None and lambdas[d2][2] in ("tail", "multi"):
+                            self.site += 1
+                            did = _FRESH * 19 + self.site * 1000 + (abs(hash(self.fn.get("key", ""))) % 997)
+                            name = "__cond_%d" % self.site
+                            t = c0.get("t") or "auto"
+                            var = {"k": "Var", "did": did, "name": name, "t": t if t.startswith("const ") else "const " + t, "init": c0, "l": x.get("l")}
+                            x["cond"] = {"k": "DeclRefExpr", "l": c0.get("l"), "t": t, "vc": "l", "ref": {"did": did, "dk": "Var", "name": name}}
+                            out.append({"k": "DeclStmt", "l": x.get("l"), "decls": [var], "hoisted_from_condition": True})
+                    out.append(x)
+                n["c"] = out
+            return n
+        return rec(body)
 
     def _remove_var(self, body, did):
         for n in walk(body):
@@ -1525,5 +1561,270 @@ def pointer_views_to_subscripts(prog, repo_prefix):
                         n[key] = [pre(x) if isinstance(x, dict) else x for x in n[key]]
                 return n
             fn["body"] = pre(fn["body"])
+            fn.pop("_stable_locals", None)
+    return total
+
+
+def thread_constant_switches(prog, repo_prefix):
+    """`T r; <code that assigns r one of several constants, each assignment being the last thing executed on its path>;
+    switch(r){ case K1: S1; break; case K2: S2; break; ... }` with r used nowhere else: every `r = Ki;` is replaced by Si (the
+    statements of that case without its final break) and the switch is removed (jump threading).  The program executes the same
+    statements in the same order; rules then see `S_i` under the conditions that selected K_i."""
+    total = 0
+
+    def const_key(e):
+        e = strip(e)
+        while e.get("k") in ("ConstantExpr", "ImplicitCastExpr", "ParenExpr", "CXXFunctionalCastExpr", "CStyleCastExpr") and len([c for c in e.get("c", []) if isinstance(c, dict)]) == 1:
+            e = strip([c for c in e["c"] if isinstance(c, dict)][0])
+        if e.get("k") == "DeclRefExpr" and (e.get("ref") or {}).get("dk") == "EnumConstant":
+            return ("enum", e["ref"].get("did"), e["ref"].get("name"))
+        if e.get("k") in ("IntegerLiteral", "CXXBoolLiteralExpr", "CharacterLiteral"):
+            return ("lit", str(e.get("v")))
+        return None
+
+    def cases_of(sw):
+        body = sw.get("body") or {}
+        if body.get("k") != "CompoundStmt":
+            return None
+        cases, cur, labels = {}, None, []
+        default = None
+        items = []
+        for st in body.get("c", []):
+            inner = st
+            labs = []
+            while inner.get("k") in ("CaseStmt", "DefaultStmt"):
+                labs.append(inner)
+                inner = inner.get("sub") or {"k": "NullStmt"}
+            if labs:
+                items.append((labs, [inner]))
+            elif items:
+                items[-1][1].append(st)
+            else:
+                return None
+        for labs, stmts in items:
+            # must end with break / return / throw (no fall through into the next labelled group)
+            if not stmts:
+                return None
+            last = stmts[-1]
+            if last.get("k") == "BreakStmt":
+                stmts = stmts[:-1]
+            elif last.get("k") == "CompoundStmt" and last.get("c") and last["c"][-1].get("k") == "BreakStmt":
+                stmts = stmts[:-1] + [dict(last, c=last["c"][:-1])]
+            elif last.get("k") == "CompoundStmt" and _always_returns(last):
+                pass
+            elif not (last.get("k") == "ReturnStmt" or strip(last).get("k") == "CXXThrowExpr" or (items[-1][1] is stmts)):
+                return None
+            if any(x.get("k") == "BreakStmt" and not _inside_loop_or_switch(st_, x) for st_ in stmts for x in walk(st_, into_lambdas=False)):
+                return None
+            for lb in labs:
+                if lb.get("k") == "DefaultStmt":
+                    default = stmts
+                else:
+                    k = const_key(lb.get("value") or {})
+                    if k is None:
+                        return None
+                    cases[k] = stmts
+        return cases, default
+
+    for fn in _repo_fns(prog, repo_prefix):
+        if not any(x.get("k") == "SwitchStmt" for x in walk(fn["body"])):
+            continue
+        counter = [max(list(_all_dids(fn["body"])) + [_FRESH * 23]) + 1]
+
+        def visit(n):
+            nonlocal total
+            for key in _SUBKEYS + ("var",):
+                if isinstance(n.get(key), dict):
+                    visit(n[key])
+            for key in ("decls", "handlers"):
+                for x in n.get(key, []) or []:
+                    if isinstance(x, dict):
+                        visit(x)
+            if not isinstance(n.get("c"), list):
+                return
+            for x in n["c"]:
+                if isinstance(x, dict):
+                    visit(x)
+            if n.get("k") != "CompoundStmt":
+                return
+            flat = list(n["c"])
+            i = 0
+            while i < len(flat):
+                sw = flat[i]
+                if isinstance(sw, dict) and sw.get("k") == "SwitchStmt" and isinstance(sw.get("cond"), dict):
+                    c0 = strip(sw["cond"])
+                    while c0.get("k") in ("ImplicitCastExpr", "ParenExpr") and len([c for c in c0.get("c", []) if isinstance(c, dict)]) == 1:
+                        c0 = strip([c for c in c0["c"] if isinstance(c, dict)][0])
+                    if c0.get("k") == "DeclRefExpr" and (c0.get("ref") or {}).get("dk") == "Var" and i >= 1:
+                        rd = c0["ref"]["did"]
+                        prev = flat[i - 1]
+                        cs = cases_of(sw)
+                        uses = [u for u in walk(fn["body"]) if u.get("k") == "DeclRefExpr" and (u.get("ref") or {}).get("did") == rd]
+                        assigns = [a for a in walk(prev) if a.get("k") == "BinaryOperator" and a.get("op") == "=" and strip(a["c"][0]).get("k") == "DeclRefExpr" and strip(a["c"][0])["ref"].get("did") == rd] if isinstance(prev, dict) else []
+                        if cs is not None and assigns and len(uses) == len(assigns) + 1 and all(const_key(a["c"][1]) is not None for a in assigns) and _tail_assignments(prev, assigns):
+                            cases, default = cs
+                            repl = {}
+                            cont = flat[i + 1:]          # what follows the switch: executed by the cases that do not return
+                            moved_cont = False
+                            for a in assigns:
+                                k = const_key(a["c"][1])
+                                stmts = list(cases.get(k, default if default is not None else []))
+                                falls_out = not (stmts and (_always_returns({"k": "CompoundStmt", "c": stmts}) or strip(stmts[-1]).get("k") == "CXXThrowExpr"))
+                                if falls_out and cont:
+                                    stmts = stmts + cont
+                                    moved_cont = True
+                                mapping = {}
+                                for st_ in stmts:
+                                    for d in _declared(st_):
+                                        mapping[d] = counter[0]
+                                        counter[0] += 1
+                                repl[id(a)] = {"k": "CompoundStmt", "l": a.get("l"), "inlined_lambda": True, "threaded_case": str(k[-1]), "c": [_remap(st_, mapping) for st_ in stmts]}
+                            if moved_cont:
+                                # references from outside to declarations of the moved continuation cannot exist (it was the tail
+                                # of the block); the original copy is dropped
+                                del flat[i + 1:]
+
+                            def sub(m):
+                                # the assignment may be wrapped (ExprWithCleanups)
+                                core = strip(m)
+                                if id(core) in repl:
+                                    return repl[id(core)]
+                                if id(m) in repl:
+                                    return repl[id(m)]
+                                return m
+                            flat[i - 1] = _rewrite(prev, sub)
+                            del flat[i]
+                            total += 1
+                            continue
+                i += 1
+            n["c"] = flat
+        visit(fn["body"])
+        fn.pop("_stable_locals", None)
+    return total
+
+
+def _inside_loop_or_switch(root, node):
+    """is node nested in a loop / switch that lies inside root?"""
+    from .model import children as _ch
+    def rec(n, inside):
+        if n is node:
+            return inside
+        for c in _ch(n):
+            r = rec(c, inside or n.get("k") in ("ForStmt", "WhileStmt", "DoStmt", "CXXForRangeStmt", "SwitchStmt"))
+            if r is not None:
+                return r
+        return None
+    return bool(rec(root, False))
+
+
+def _tail_assignments(block, assigns):
+    """every assignment in `assigns` is the last statement executed on its path through `block` (tail positions of nested
+    blocks and if/else branches only)"""
+    ids = {id(a) for a in assigns}
+    found = set()
+
+    def tail(n):
+        k = n.get("k")
+        if k == "CompoundStmt":
+            st = n.get("c", [])
+            return tail(st[-1]) if st else False
+        if k == "IfStmt":
+            if not isinstance(n.get("else"), dict):
+                return False
+            return tail(n["then"]) and tail(n["else"])
+        core = strip(n)
+        if id(core) in ids or id(n) in ids:
+            found.add(id(core) if id(core) in ids else id(n))
+            return True
+        return False
+    ok = tail(block)
+    return ok and found == ids
+
+
+def sink_single_assignments(prog, repo_prefix):
+    """In functions that contain inlined code: a local that is declared with no value (or a literal / default-constructed one),
+    is assigned exactly once by a statement of some block H, and is read only after that statement and inside H, is declared at
+    that assignment instead (`T v; ...; v = E;` -> `...; T v = E;`).  Every read sees the same value; the variable becomes a
+    single-assignment local that the rules can follow."""
+    from .model import children as _ch
+    total = 0
+    for fn in _repo_fns(prog, repo_prefix):
+        body = fn["body"]
+        if not any(x.get("inlined_lambda") or x.get("inlined_helper") for x in walk(body) if x.get("k") == "CompoundStmt"):
+            continue
+        order, parent = {}, {}
+        for i, n in enumerate(walk(body)):
+            order[id(n)] = i
+            for c in _ch(n):
+                parent[id(c)] = n
+        captured = {c_.get("did") for x in walk(body) if x.get("k") == "LambdaExpr" for c_ in x.get("captures", [])}
+        decls = {}
+        for ds in walk(body):
+            if ds.get("k") == "DeclStmt":
+                for v in ds.get("decls", []):
+                    if isinstance(v, dict) and v.get("k") == "Var" and not v.get("static_local") and not (v.get("t") or "").rstrip().endswith("&") and v.get("did") not in captured:
+                        i0 = v.get("init")
+                        ok_init = not isinstance(i0, dict)
+                        if isinstance(i0, dict):
+                            j = strip(i0)
+                            ok_init = j.get("k") in ("IntegerLiteral", "FloatingLiteral", "CXXBoolLiteralExpr") or (j.get("k") == "CXXConstructExpr" and not [c for c in j.get("c", []) if isinstance(c, dict)]) or j.get("k") == "ImplicitValueInitExpr"
+                        if ok_init:
+                            decls[v["did"]] = (ds, v)
+        if not decls:
+            continue
+        refs = {}
+        for x in walk(body):
+            if x.get("k") == "DeclRefExpr" and (x.get("ref") or {}).get("did") in decls:
+                refs.setdefault(x["ref"]["did"], []).append(x)
+        changed = 0
+        for did, (ds, v) in decls.items():
+            rs = refs.get(did, [])
+            writes = []
+            for r in rs:
+                p_ = parent.get(id(r))
+                n_ = r
+                while p_ is not None and p_.get("k") in ("ParenExpr", "ImplicitCastExpr"):
+                    n_, p_ = p_, parent.get(id(p_))
+                if p_ is None:
+                    continue
+                if p_.get("k") == "BinaryOperator" and p_.get("op") == "=" and p_["c"][0] is n_:
+                    writes.append((r, p_, p_["c"][1]))
+                elif p_.get("k") == "CXXOperatorCallExpr" and p_.get("op") == "=" and len(p_.get("c", [])) == 3 and p_["c"][1] is n_:
+                    writes.append((r, p_, p_["c"][2]))
+                elif p_.get("k") == "CompoundAssignOperator" and p_["c"][0] is n_:
+                    writes.append((r, p_, None))
+                elif p_.get("k") == "UnaryOperator" and p_.get("op") in ("++", "--", "post++", "post--", "pre++", "pre--", "&"):
+                    writes.append((r, p_, None))
+                elif p_.get("k") == "CXXOperatorCallExpr" and p_.get("op") in ("+=", "-=", "*=", "/=", "++", "--") and len(p_.get("c", [])) >= 2 and p_["c"][1] is n_:
+                    writes.append((r, p_, None))
+                elif p_.get("k") == "MemberExpr":
+                    call = parent.get(id(p_))
+                    if call is not None and call.get("k") == "CXXMemberCallExpr" and not call.get("cconst"):
+                        writes.append((r, call, None))
+            if len(writes) != 1 or writes[0][2] is None:
+                continue
+            wref, w, rhs = writes[0]
+            holder, top = parent.get(id(w)), w
+            if holder is not None and holder.get("k") == "ExprWithCleanups":
+                top, holder = holder, parent.get(id(holder))
+            if holder is None or holder.get("k") != "CompoundStmt" or not any(x is top for x in holder.get("c", [])):
+                continue
+            end_w = max(order[id(x)] for x in walk(w))
+            h_eff = holder
+            while h_eff.get("inlined_lambda") and not h_eff.get("threaded_case") and parent.get(id(h_eff)) is not None and parent[id(h_eff)].get("k") == "CompoundStmt":
+                h_eff = parent[id(h_eff)]       # a block that only exists because a call was inlined is not a scope of the source
+            inside = {id(x) for x in walk(h_eff)}
+            if any((order[id(r)] <= end_w or id(r) not in inside) for r in rs if r is not wref):
+                continue
+            if any(x.get("k") == "DeclRefExpr" and (x.get("ref") or {}).get("did") == did for x in walk(rhs)):
+                continue
+            # the holder must not be a loop body that is re-entered with the old value expected: the declaration would simply
+            # be per iteration, which is the same since every read follows the assignment inside the holder
+            newdecl = {"k": "DeclStmt", "l": w.get("l"), "decls": [dict({k_: v_ for k_, v_ in v.items() if k_ != "init"}, init=rhs, l=w.get("l"))], "declared_at_assignment": True}
+            holder["c"] = [newdecl if x is top else x for x in holder["c"]]
+            ds["decls"] = [d for d in ds["decls"] if d is not v]
+            changed += 1
+        if changed:
+            total += changed
             fn.pop("_stable_locals", None)
     return total
